@@ -62,6 +62,18 @@ Theorem c18_finished_tx_is_reported : forall c, begin_ok c = true -> (exists i, 
   snd (transact c) = RTxDone /\ count is_commit (fst (transact c)) = 0.
 Proof. exact finished_tx_is_reported_lem. Qed.
 
+(* a handle that already carries an error: nothing is begun, no step runs, the caller gets an error *)
+Theorem c18_stale_handle_begins_nothing : forall c, steps c <> [] -> transact_stale c = ([], RBeginErr).
+Proof. exact stale_begins_nothing. Qed.
+
+Theorem c18_stale_handle_holds : forall c, holds_stale c (transact_stale c) = true.
+Proof. exact stale_model_holds. Qed.
+
+(* the behaviour before /repo commit 9f4b88c (Begin reached the driver, nothing finished the transaction) is refuted *)
+Theorem c18_stale_prefix_refuted : forall c, steps c <> [] -> begin_ok c = true ->
+  holds_stale c (transact_stale_prefix c) = false.
+Proof. exact stale_prefix_violates. Qed.
+
 Print Assumptions c18_model_holds.
 Print Assumptions c18_accept_sound.
 Print Assumptions c18_transact_finished_once.
@@ -75,3 +87,6 @@ Print Assumptions c18_begin_failure_runs_nothing.
 Print Assumptions c18_combine_spec.
 Print Assumptions c18_combine_empty.
 Print Assumptions c18_finished_tx_is_reported.
+Print Assumptions c18_stale_handle_begins_nothing.
+Print Assumptions c18_stale_handle_holds.
+Print Assumptions c18_stale_prefix_refuted.
